@@ -6,6 +6,8 @@
 (*   {ev:"Slots", to, oracle:{slots}, post}  common.ProcessSlots           *)
 (*   {ev:"Probe", to, oracle:{slots}, post}  common.ProcessSlots on a copy *)
 (*   {ev:"Block", blk, oracle, accepted, post, root_ok}                    *)
+(*   {ev:"Neg", variant, class, blk, oracle, accepted, post?, root_ok}     *)
+(*                      StateTransition of a block variant on a copy (C03) *)
 (*                                           common.StateTransition        *)
 (* Every event must satisfy  post = <specification operator>(st, args)     *)
 (* where st is the logged predecessor state; an event that does not is     *)
@@ -113,9 +115,44 @@ TraceBlock(e, k) ==
                /\ PrintT(<<"DIFF", k, "zrnt accepted a block the specification rejects">>)
     /\ st' = IF e.accepted THEN e.post ELSE st
 
+\* C03: a variant of a block (single-fault corruption, replayed signature, byte-level mutation) run through
+\* common.StateTransition on a COPY of the live state; the history does not advance.
+\*   the specification rejects the variant  =>  zrnt must return an error (BlockInvalid otherwise);
+\*   zrnt must never panic;
+\*   the specification accepts it (a control) and zrnt accepts it => post = Apply(st, blk) and root_ok.
+\*   (a control that zrnt rejects is not judged here: its declared state root cannot be confirmed, and
+\*   completeness on valid blocks is C01's subject)
+TraceNeg(e, k) ==
+    /\ e.ev = "Neg"
+    /\ LET r == StateTransition(st, e.blk, e.oracle)
+           ok == ~IsBad(r)
+       IN IF "panic" \in DOMAIN e
+            THEN PrintT(<<"MISMATCH", k, "Panic">>) /\ PrintT(<<"DIFF", k, e.variant, e.panic>>)
+          ELSE IF ~ok /\ e.accepted
+            THEN PrintT(<<"MISMATCH", k, "BlockInvalid">>)
+                 /\ PrintT(<<"DIFF", k, "zrnt accepted a block the specification rejects", e.variant>>)
+          ELSE IF ok /\ e.accepted
+            THEN IF r = e.post /\ e.root_ok THEN PrintT(<<"CONTROL", k, "Neg">>)
+                 ELSE IF r # e.post
+                   THEN PrintT(<<"MISMATCH", k, "NegControl">>) /\ PrintT(<<"DIFF", k, e.variant, DiffFields(r, e.post)>>)
+                 ELSE PrintT(<<"MISMATCH", k, "BlockInvalid">>)
+                      /\ PrintT(<<"DIFF", k, "zrnt accepted a block whose declared state root is not the post-state root", e.variant>>)
+          ELSE IF ok
+            \* the specification accepts the block up to its declared state root, zrnt rejected it.  The harness
+            \* ran the block once more without result validation: if that state is the specification's, its
+            \* root decides whether the declared root was right.
+            THEN IF "unvalidated" \in DOMAIN e /\ e.unvalidated = r
+                   THEN IF e.unvalidated_root_ok
+                          THEN PrintT(<<"MISMATCH", k, "NegControl">>)
+                               /\ PrintT(<<"DIFF", k, "zrnt rejected a variant that the specification accepts", e.variant, e.err>>)
+                          ELSE TRUE        \* only the declared state root is wrong: rejecting is right
+                   ELSE PrintT(<<"UNJUDGED", k, "Neg">>)
+          ELSE TRUE
+    /\ st' = st
+
 Next ==
     /\ l < Len(Trace)
-    /\ LET e == Trace[l + 1] IN TraceInit(e, l + 1) \/ TraceSlots(e, l + 1) \/ TraceProbe(e, l + 1) \/ TraceBlock(e, l + 1)
+    /\ LET e == Trace[l + 1] IN TraceInit(e, l + 1) \/ TraceSlots(e, l + 1) \/ TraceProbe(e, l + 1) \/ TraceBlock(e, l + 1) \/ TraceNeg(e, l + 1)
     /\ l' = l + 1
 
 Spec == Init /\ [][Next]_vars
